@@ -36,6 +36,7 @@ type checkOpts struct {
 	dump     string
 	seed     int64
 	noReplay bool
+	noBounded bool
 	budget   int
 }
 
@@ -56,6 +57,7 @@ func main() {
 		fs.BoolVar(&o.verbose, "v", false, "verbose")
 		fs.StringVar(&o.dump, "dump", "", "directory to dump SMT queries into")
 		fs.BoolVar(&o.noReplay, "noreplay", false, "skip replay")
+		fs.BoolVar(&o.noBounded, "nobounded", false, "skip the bounded stand-ins")
 		fs.IntVar(&o.budget, "budget", 0, "per-obligation solver budget in seconds (default 10 quick / 60 thorough)")
 		fs.Parse(os.Args[2:])
 		if s := os.Getenv("VERIF_SEED"); s != "" {
@@ -97,6 +99,7 @@ type obResult struct {
 	Secs    float64
 	Size    int
 	Outcome *Outcome
+	Input   map[string]interface{} // a failing input found directly (bounded checks)
 }
 
 func hasTag(tags []string, p string) bool {
@@ -228,6 +231,21 @@ func runCheck(o *checkOpts) int {
 			}
 		}
 	}
+	// obligations about compiled regular expressions
+	for _, rs := range w.Cs.Regexes {
+		if o.prop != "" && !hasTag(rs.Tags, o.prop) {
+			continue
+		}
+		if o.only != "" && !strings.Contains(rs.Var, o.only) {
+			continue
+		}
+		qs, errs := w.regexQueries(rs)
+		missing = append(missing, errs...)
+		for _, q := range qs {
+			jobs = append(jobs, job{q, q.Ob.Func})
+		}
+		funcsUnder = append(funcsUnder, shortPkg(rs.Pkg)+"."+rs.Var+" (compiled pattern)")
+	}
 	if anyDep && o.only == "" {
 		for _, q := range lemmaObligations() {
 			jobs = append(jobs, job{q, "prelude"})
@@ -343,6 +361,26 @@ func runCheck(o *checkOpts) int {
 		failed = append(failed, &obResult{Ob: &Obligation{Name: "contracts:" + m, Kind: "structure", Descr: m}, Status: "structure"})
 	}
 
+	// bounded stand-ins (labelled bounded, never counted as proved)
+	var boundedInfo []map[string]interface{}
+	if o.prop != "" && o.only == "" && !o.noBounded {
+		bi, bfails, ran := runBounded(o, o.prop)
+		boundedInfo = bi
+		if ran && len(bi) == 0 && len(bfails) == 0 {
+			engineErrs = append(engineErrs, "bounded harness of "+o.prop+" produced no report")
+			nOb++
+			failed = append(failed, &obResult{Ob: &Obligation{Name: "bounded:" + o.prop + ":no-report", Kind: "structure", Descr: "the bounded harness did not run to completion"}, Status: "structure"})
+		}
+		for i, f := range bfails {
+			if i >= 3 {
+				break
+			}
+			why, _ := f["why"].(string)
+			call, _ := f["call"].(string)
+			failed = append(failed, &obResult{Ob: &Obligation{Name: fmt.Sprintf("bounded:%s:%d", o.prop, i+1), Kind: "bounded", Descr: "bounded check against the real code: " + call + ": " + why}, Status: "bounded-fail", Input: f})
+		}
+	}
+
 	// findings
 	known := loadFindings(filepath.Join(o.verif, "known_findings.json"))
 	violations := 0
@@ -401,6 +439,7 @@ func runCheck(o *checkOpts) int {
 			"vacuity_covers_reachable": nCoverOK,
 			"samples":                samples,
 			"failed":                 failedNames(failed),
+			"bounded":                boundedInfo,
 		},
 		"assumptions": standingAssumptions,
 	}
@@ -522,7 +561,9 @@ func writeReplay(o *checkOpts, prop string, r *obResult) string {
 			rep["model"] = r.Outcome.Model
 		}
 	}
-	if !o.noReplay {
+	if r.Input != nil {
+		rep["failing_input"] = r.Input
+	} else if !o.noReplay {
 		if inp := findFailingInput(o, prop, r); inp != nil {
 			rep["failing_input"] = inp
 		}
